@@ -277,6 +277,10 @@ func (p *PubSubChainExchange) cacheAsDiscoveredChain(ctx context.Context, cmsg M
 			if !existed {
 				metrics.chains.Add(ctx, 1, metric.WithAttributeSet(
 					attrFromWantedDiscovered(false, true)))
+			} else {
+				// Refresh the prefix that is already there: otherwise caching the remaining
+				// prefixes of this very chain may evict it as the least recently used entry.
+				discovered.Get(key)
 			}
 		} else if portion.IsPlaceholder() {
 			// It is a wanted key with a placeholder; replace the placeholder with the actual
